@@ -95,6 +95,14 @@ func decide(prop, hd string, files []string, pkgName string, sums []*gosym.Harne
 		}
 		for _, label := range gosym.SortedLabels(s.Violations) {
 			v := s.Violations[label]
+			if strings.HasPrefix(label, "lemma/") {
+				// schedule-independent lemmas are decided by the engine's access monitor only; a failing lemma is
+				// reported but never counted as a violation on its own (DESIGN.md §2.6)
+				line := fmt.Sprintf("LEMMA-FAILED property=%s harness=%s %s", prop, v.Harness, label)
+				fmt.Println(line)
+				ev.LemmaLines = append(ev.LemmaLines, line)
+				continue
+			}
 			rf := replayFile{Property: prop, PkgDir: pkgDirOf(hd), Harness: v.Harness, Label: v.Label, Tier: tier, Msg: v.Msg, Pos: v.Pos,
 				Inputs: v.Inputs, Apps: v.Apps, Choices: v.Choices, Decisions: v.Decisions, Trace: v.Trace, Sched: v.Sched, BaseG: v.BaseG}
 			for _, d := range v.Decisions {
